@@ -2,7 +2,7 @@
    Statements only; proofs in TkProofs.Codec_proofs / Codec_ts_proofs / Codec_jv_proofs.
    Model: TkModel.Codec (serde shapes of tackler-api/src/filters/**, full_haystack_matcher,
    peel_full_haystack_pattern, FilterDefinition::{from_json_str, is_armored, from_armor}).
-   Parameters (libraries): rx_ok = Regex::new on the text that is compiled, json_parse = serde_json
+   Parameters (libraries): rx_ok = Regex::new(text).is_ok(), json_parse = serde_json
    text -> tree. *)
 From TkModel Require Import Base Dec Codec.
 From TkSpec Require Import Codec_spec.
@@ -112,12 +112,15 @@ Theorem C18_rejects : forall rx_ok,
   (forall j f, def_of_jv rx_ok j = Some f -> exists x, of_jv rx_ok x = Some f) /\
   (forall A (f : jv -> option A) k kvs, has_key k kvs = false -> get_field f k kvs = None) /\
   (forall A (f : jv -> option A) k v1 v2 a b c, get_field f k (a ++ (k, v1) :: b ++ (k, v2) :: c) = None) /\
-  (forall x r, de_regex rx_ok x = Some r -> exists p, x = JStr p /\ rx_ok (wrap_s p) = true /\ r = wrap_s p) /\
+  (forall x r, de_regex rx_ok x = Some r ->
+     exists p, x = JStr p /\ rx_ok p = true /\ rx_ok (wrap_s p) = true /\ r = wrap_s p) /\
   (forall x d, de_dec x = Some d ->
      exists s, (x = JStr s \/ x = JNum s \/ x = JObj [(k_number_token, JStr s)]) /\ dec_parse s = Some d) /\
   (forall x z, de_ts x = Some z -> exists s, x = JStr s /\ ts_parse s = Some z) /\
   (forall x u, de_uuid x = Some u -> exists s, x = JStr s /\ uuid_parse s = Some u) /\
-  (forall p, rx_ok (wrap_s p) = false ->
+  (* a pattern that is not a regular expression on its own is rejected (full strength since the
+     repair of the first half of F15, commit f40ad68), as is one that does not compile inside the wrapper *)
+  (forall p, rx_ok p = false \/ rx_ok (wrap_s p) = false ->
      forall tag, In tag [v_TxnCode; v_TxnDescription; v_TxnTags; v_TxnComments; v_PostingAccount;
                          v_PostingComment; v_PostingCommodity] ->
        of_jv rx_ok (j_variant tag [(k_regex, JStr p)]) = None) /\
